@@ -212,6 +212,51 @@ def gen_index(rng, n):
     return rng.randint(-n - 2, n + 2)
 
 
+# ---- file names for the CSV round trip: every suffix numpy treats specially (compressed streams), ordinary and
+# odd names, neighbours of other targets (what a temp-file scheme might use), str / pathlib, relative / absolute,
+# an existing file that is overwritten, the same path saved again with another lattice (path re-use)
+STEMS = ["l", "lattice", "my lattice", "gitter_\u00e4", "\u30c7\u30fc\u30bf", "a.b.c", ".hidden", "x-1"]
+SUFFIXES = ["", ".csv", ".txt", ".dat", ".CSV", ".csv.gz", ".gz", ".csv.bz2", ".bz2", ".txt.xz", ".xz", ".gz.csv",
+            ".csv.tmp", ".tmp", ".csv~", ".npy", ".GZ", ".csv.gz", ".csv.bz2", ".csv.xz"]
+NEIGHBOURS = [".tmp", "~", ".bak", ".gz", ".part", ".new"]
+SUBDIRS = [("s", ""), ("s", ""), ("dir with space", ""), ("donn\u00e9es", ""), ("d", ".gz"), ("d", ".tmp")]
+DEFAULT_FN = dict(name="l.csv", kind="str", rel=False, pre="none")
+
+
+def gen_fn(rng, saved):
+    r = rng.random()
+    names = sorted(saved)
+    if names and r < 0.3:
+        name = rng.choice(names)                                   # path re-use
+    elif names and r < 0.42:
+        name = rng.choice(names) + rng.choice(NEIGHBOURS)          # a neighbour of an existing target
+    else:
+        name = rng.choice(STEMS) + rng.choice(SUFFIXES)
+    return dict(name=name, kind="path" if rng.random() < 0.25 else "str", rel=rng.random() < 0.25,
+                pre="garbage" if (name not in saved and rng.random() < 0.15) else "none")
+
+
+def fn_class(fn, reuse=False) -> str:
+    """class of a target name (keeps violation keys specific but few)"""
+    n = fn["name"]
+    for ext in (".gz", ".bz2", ".xz"):
+        if n.endswith(ext):
+            return "compressed-suffix" + ext
+    if reuse:
+        return "path-reused"
+    if fn.get("pre") == "garbage":
+        return "overwrite-existing"
+    if fn.get("kind") == "path":
+        return "pathlib"
+    if fn.get("rel"):
+        return "relative-path"
+    if not n.isascii() or " " in n:
+        return "odd-name"
+    if "." not in n.strip("."):
+        return "no-suffix"
+    return "plain"
+
+
 def gen_scenario(rng, ncmd=(6, 22), maxn=6, wild=True):
     """abstract scenario: lattices + commands (operands are indices into the list of live objects)"""
     g0 = gen_geom(rng, maxn)
@@ -236,7 +281,7 @@ def gen_scenario(rng, ncmd=(6, 22), maxn=6, wild=True):
         lats.append(dict(ext=g["ext"], n=g["n"], nodes=g["nodes"], grid=grid))
     cmds = []
     live = [dict(n=l["n"], nodes=l["nodes"]) for l in lats]
-    saved = False
+    saved = {}            # target name -> geometry of the lattice last saved there
     for _ in range(rng.randint(*ncmd)):
         l = rng.randrange(len(live))
         L = live[l]
@@ -287,18 +332,23 @@ def gen_scenario(rng, ncmd=(6, 22), maxn=6, wild=True):
             if all(live[b]["n"] == live[l]["n"] for b in bs):
                 live.append(dict(n=live[l]["n"], nodes=live[l]["nodes"]))
         elif k == "sv":
-            cmds.append(dict(k=k, l=l))
-            saved = l
+            fn = gen_fn(rng, saved)
+            cmds.append(dict(k=k, l=l, fn=fn))
+            saved[fn["name"]] = dict(n=live[l]["n"], nodes=live[l]["nodes"])
         elif k == "ld":
-            if saved is False:
-                cmds.append(dict(k="sv", l=l))
-                saved = l
+            if not saved:
+                fn = gen_fn(rng, saved)
+                cmds.append(dict(k="sv", l=l, fn=fn))
+                saved[fn["name"]] = dict(n=live[l]["n"], nodes=live[l]["nodes"])
+            names = list(saved)
+            name = names[-1] if rng.random() < 0.5 else rng.choice(names)     # the last target, or an earlier one
             mut = rng.random()
             cmds.append(dict(k=k, mut="drop-last" if mut < 0.12 else ("short" if mut < 0.18 else
-                                                                    ("extra" if mut < 0.24 else "none"))))
+                                                                    ("extra" if mut < 0.24 else "none")),
+                             fn=dict(name=name, kind="path" if rng.random() < 0.25 else "str", rel=rng.random() < 0.25)))
             if mut >= 0.24:
-                live.append(dict(n=live[saved]["n"], nodes=live[saved]["nodes"]))
-    return dict(lats=lats, cmds=cmds)
+                live.append(dict(n=saved[name]["n"], nodes=saved[name]["nodes"]))
+    return dict(lats=lats, cmds=cmds, subdir=list(rng.choice(SUBDIRS)))
 
 
 # ------------------------------------------------------------------ the real code
@@ -328,6 +378,29 @@ def _warned(w):
     return any("outside the lattice range" in str(x.message) for x in w)
 
 
+class _cwd:
+    """run a call with another working directory (relative file names)"""
+
+    def __init__(self, d):
+        self.d = d
+
+    def __enter__(self):
+        self.old = os.getcwd()
+        if self.d is not None:
+            os.chdir(self.d)
+
+    def __exit__(self, *a):
+        os.chdir(self.old)
+
+
+def _target(sub, fn):
+    """(argument handed to save_to_csv / load_from_csv, absolute path of the file)"""
+    import pathlib
+    ap = os.path.join(sub, fn["name"])
+    arg = fn["name"] if fn.get("rel") else ap
+    return (pathlib.Path(arg) if fn.get("kind") == "path" else arg), ap
+
+
 def run_real(scn, tmpdir, hook=None):
     """execute on the real class.  Returns (driver command strings, answers, dump strings, objects).
     `hook(cmd, answer, objs, last_saved)` is called after every executed command."""
@@ -335,9 +408,10 @@ def run_real(scn, tmpdir, hook=None):
     from scipy.interpolate import interpn
     objs = [_mk(l) for l in scn["lats"]]
     dcmds, answers = [], []
-    last_row = None
+    rows = {}             # target name -> the row of numbers np.loadtxt reads from the file save_to_csv wrote
     last_saved = None
-    csvp = os.path.join(tmpdir, "l.csv")
+    sd = scn.get("subdir") or ["s", ""]
+    sub = tempfile.mkdtemp(prefix=sd[0] + "_", suffix=sd[1], dir=tmpdir)   # one fresh directory per run
     for c in scn["cmds"]:
         k = c["k"]
         if k in ("bo",):
@@ -347,7 +421,7 @@ def run_real(scn, tmpdir, hook=None):
             if c["a"] >= len(objs) or any(b >= len(objs) for b in c["bs"]):
                 continue
         elif k == "ld":
-            if last_row is None:
+            if c.get("fn", DEFAULT_FN)["name"] not in rows:
                 continue
         elif c["l"] >= len(objs):
             continue
@@ -433,14 +507,26 @@ def run_real(scn, tmpdir, hook=None):
                     objs.append(R)
                 elif k == "sv":
                     dcmds.append(f"sv,{c['l']}")
-                    objs[c["l"]].save_to_csv(csvp)
-                    toks = open(csvp).read().strip().split(",")
-                    last_row = [float(t) for t in toks]          # float(str): the loadtxt side of the text layer
-                    c["_row"] = [fx(v) for v in last_row]
+                    fn = c.get("fn", DEFAULT_FN)
+                    arg, ap = _target(sub, fn)
+                    c["_reuse"] = fn["name"] in rows
+                    rows.pop(fn["name"], None)
+                    if fn.get("pre") == "garbage" and not os.path.exists(ap):
+                        with open(ap, "wb") as fh:                 # an existing, longer file of another kind
+                            fh.write(b"# not a lattice, 1 2 3\n" * 400)
+                    with _cwd(sub if fn.get("rel") else None):
+                        objs[c["l"]].save_to_csv(arg)
+                    # files that appeared next to the targets (temp files left behind): recorded, see `correspond`
+                    c["_stray"] = sorted(set(os.listdir(sub)) - set(rows) - {fn["name"]})
+                    # the reading side of the text layer: numpy's own reader, which picks the stream by the suffix
+                    row = [float(v) for v in np.loadtxt(ap, delimiter=",", ndmin=1)]
+                    rows[fn["name"]] = row
+                    c["_row"] = [fx(v) for v in row]
                     last_saved = c["l"]
-                    ans = "t" + fxs(last_row)
+                    ans = "t" + fxs(row)
                 elif k == "ld":
-                    row = list(last_row)
+                    fn = c.get("fn", DEFAULT_FN)
+                    row = list(rows[fn["name"]])
                     if c["mut"] == "drop-last":
                         row = row[:-1]
                     elif c["mut"] == "short":
@@ -449,11 +535,13 @@ def run_real(scn, tmpdir, hook=None):
                         row = row + [1.0]
                     c["_row"] = [fx(v) for v in row]
                     dcmds.append("ld," + fxs(row))
-                    p2 = csvp                           # the file save_to_csv wrote
+                    arg, ap = _target(sub, fn)          # the file save_to_csv wrote
+                    cwd = sub if fn.get("rel") else None
                     if c["mut"] != "none":
-                        p2 = os.path.join(tmpdir, "m.csv")
-                        np.savetxt(p2, np.array(row).reshape(1, -1), delimiter=",")
-                    R = Lattice3D.load_from_csv(p2)
+                        arg, cwd = os.path.join(tmpdir, "m.csv"), None
+                        np.savetxt(arg, np.array(row).reshape(1, -1), delimiter=",")
+                    with _cwd(cwd):
+                        R = Lattice3D.load_from_csv(arg)
                     ans = f"new{len(objs)}"
                     objs.append(R)
                 else:
@@ -634,14 +722,18 @@ def _expect(c, refs, nobj, state):
         return f"new{nobj}", "average", A.copy_geom([_arith(lambda x, y: x / y, s, len(Bs) + 1) for s in acc])
     if k == "sv":
         R = refs[c["l"]]
-        state["snapshot"] = RefLat([float(v) for v in R.ext], R.n, R.nodes, R.flat())
+        fn = c.get("fn", DEFAULT_FN)
+        snaps = state.setdefault("snaps", {})
+        cls = fn_class(fn, reuse=fn["name"] in snaps)
+        snaps[fn["name"]] = (RefLat([float(v) for v in R.ext], R.n, R.nodes, R.flat()), cls)
         if any(v is None for v in R.flat()):
             return None, None, None
-        return "t" + fxs([float(v) for v in R.ext] + [float(v) for v in R.n] + R.flat()), "csv:saved-row", None
+        return ("t" + fxs([float(v) for v in R.ext] + [float(v) for v in R.n] + R.flat()),
+                "csv:saved-file-read-back:" + cls, None)
     if k == "ld":
         if c["mut"] == "none":
-            S = state["snapshot"]
-            return f"new{nobj}", "csv:roundtrip", RefLat(S.ext, S.n, S.nodes, S.flat())
+            S, cls = state["snaps"][c.get("fn", DEFAULT_FN)["name"]]
+            return f"new{nobj}", "csv:roundtrip:" + cls, RefLat(S.ext, S.n, S.nodes, S.flat())
         return "err:value", "csv:damaged-row-not-reported", None
     raise AssertionError(k)
 
@@ -760,7 +852,9 @@ def correspond(ctx):
                 "integer extents, arbitrary doubles incl. inf/nan/subnormals as grid content) and 6-22 public calls "
                 "(set/get by index incl. negative & huge indices, set/get by point, nearest-neighbour, coordinates, closest "
                 "indices, private index searches, interpolate, + - * /, average, rescale, reset, derived constructor "
-                "attributes, save/load incl. damaged rows), each run on the hand-written model AND on the functions "
+                "attributes, save/load incl. damaged rows; CSV targets: compressed-stream suffixes .gz/.bz2/.xz, no suffix, several "
+                "dots, spaces, unicode, neighbours of other targets (.tmp ~ .bak ...), str / pathlib.Path, relative / absolute, "
+                "existing file overwritten, same path saved again and any earlier target loaded later, odd directory names), each run on the hand-written model AND on the functions "
                 "generated from the current source; "
                 "points are nodes, node±1ulp, edges, midpoints, just outside, far outside, ±inf, NaN, inside. "
                 "non-trivial = scenario with at least one boundary-class point access AND one accepted write or operator; "
@@ -788,6 +882,14 @@ def correspond(ctx):
         for c in scn["cmds"]:
             if c["k"] == "sv" and "_row" in c:
                 contract["csv_tokens"] += len(c["_row"])
+            if c["k"] == "sv":
+                ctx.count("csv-target/" + fn_class(c.get("fn", DEFAULT_FN), c.get("_reuse", False)))
+                if c.get("_stray"):
+                    # not part of the statement of C17 (the round trip is judged by the later loads, which include
+                    # neighbours of every target); recorded so that a temp-file scheme is visible in the evidence
+                    ctx.count("csv/files-left-next-to-target")
+                    if not any("left next to" in x for x in ctx.notes):
+                        ctx.notes.append(f"save_to_csv left files next to its target: {c['_stray'][:4]} (target {c.get('fn', DEFAULT_FN)['name']!r})")
     outs = common.run_driver("C17", lines)
     if not outs[0].startswith("ok i2|err:value "):
         ctx.brk("correspondence-broken", f"monitor line: model answered {outs[0][:80]!r}, expected 'ok i2|err:value …'")
@@ -893,7 +995,8 @@ def agree(out: str, want: str, dcmds) -> bool:
 
 
 def _strip(scn):
-    return dict(lats=scn["lats"], cmds=[{k: v for k, v in c.items() if not k.startswith("_")} for c in scn["cmds"]])
+    return dict(lats=scn["lats"], cmds=[{k: v for k, v in c.items() if not k.startswith("_")} for c in scn["cmds"]],
+                subdir=scn.get("subdir"))
 
 
 def _first_diff(out, want, dcmds):
@@ -923,12 +1026,12 @@ def _first_diff(out, want, dcmds):
 
 # ------------------------------------------------------------------ search on the real code
 def shrink(scn, key, tmpdir):
-    cur = dict(lats=scn["lats"], cmds=list(scn["cmds"]))
+    cur = dict(lats=scn["lats"], cmds=list(scn["cmds"]), subdir=scn.get("subdir"))
     changed = True
     while changed and len(cur["cmds"]) > 1:
         changed = False
         for i in range(len(cur["cmds"]) - 1, -1, -1):
-            cand = dict(lats=cur["lats"], cmds=cur["cmds"][:i] + cur["cmds"][i + 1:])
+            cand = dict(lats=cur["lats"], cmds=cur["cmds"][:i] + cur["cmds"][i + 1:], subdir=cur.get("subdir"))
             if any(c["k"] in ("bo", "av", "ld") for c in cur["cmds"][i:i + 1]):
                 continue            # removing a creating command would renumber the objects
             r = oracle(cand, tmpdir)
@@ -940,14 +1043,14 @@ def shrink(scn, key, tmpdir):
         if len(cur["lats"]) == 1:
             break
         cmds = [dict(c, l=0) for c in cur["cmds"] if c.get("l") == t and c["k"] not in ("bo", "av", "ld")]
-        cand = dict(lats=[cur["lats"][t]], cmds=cmds)
+        cand = dict(lats=[cur["lats"][t]], cmds=cmds, subdir=cur.get("subdir"))
         if cmds:
             r = oracle(cand, tmpdir)
             if r and r[0] == key:
                 cur = cand
                 break
     # a zero grid if that still fails
-    cand = dict(lats=[dict(l, grid=[0.0] * len(l["grid"])) for l in cur["lats"]], cmds=cur["cmds"])
+    cand = dict(lats=[dict(l, grid=[0.0] * len(l["grid"])) for l in cur["lats"]], cmds=cur["cmds"], subdir=cur.get("subdir"))
     r = oracle(cand, tmpdir)
     if r and r[0] == key:
         cur = cand
